@@ -410,6 +410,8 @@ def assignment_leaves(func_node, name, mapping=None):
         for s in stmts:
             if isinstance(s, ast.Assign) and len(s.targets) == 1 and isinstance(s.targets[0], ast.Name) and s.targets[0].id == name:
                 expr_leaves(s.value, conds)
+            elif isinstance(s, ast.AnnAssign) and isinstance(s.target, ast.Name) and s.target.id == name and s.value is not None:
+                expr_leaves(s.value, conds)
             elif isinstance(s, ast.If):
                 k = cond_key(s.test)
                 walk(s.body, conds | {k})
